@@ -78,6 +78,8 @@ ListOps ==
   {<<SPrint(EM(EId("xs"), "pop", <<>>))>>} \cup
   {<<SSetIdx("xs", i, e)>> : i \in Idx, e \in {EInt(9), ECall("len", <<EId("xs")>>)}} \cup
   {<<SSetIdxOp("xs", i, o, e)>> : i \in {EInt(0), EUn("-", EInt(1))}, o \in {"+", "-", "*", "//", "%"}, e \in {EInt(2), EUn("-", EInt(2))}} \cup
+  {<<SSetIdx("xs", i, EInt(9))>> : i \in {EInt(3), EUn("-", EInt(3)), EUn("-", EInt(4))}} \cup       \* at and beyond both ends
+  {<<SPrint(EIdx(EId("xs"), i))>> : i \in {EInt(3), EUn("-", EInt(4))}} \cup
   {<<SExpr(EM(EId("xs"), "swap", <<EInt(0), EInt(2)>>))>>} \cup
   {<<SPrint(EM(EId("xs"), "contains", <<e>>))>> : e \in {EInt(1), EInt(7)}} \cup
   {<<SPrint(EBin(o, e, EId("xs")))>> : o \in {"in", "not in"}, e \in {EInt(2), EInt(9)}} \cup
